@@ -351,6 +351,7 @@ def main(rep, tier, seed):
     items, n_osc = gen_cases(rng, tier)
     items = corpus + items
     outl, bad, errors = correspond_retry(binpath, items, "c17")
+    rep.extra["no_std_build"] = F.nostd_phase(rep, "c17", items, outl) if not errors and len(outl) == len(items) else {}
     for name, msg in errors:
         rep.violation("correspondence_error_" + name.replace("/", "_"),
                       {"kind": "correspondence could not be evaluated", "where": name, "log": msg}, no_input=True)
